@@ -115,14 +115,16 @@ def calls_to(scope, fname):
 
 # --------------------------------------------------------------------------- expression translation
 class Env:
-    def __init__(self, params=None, consts=None, enums=None, lets=None):
+    def __init__(self, params=None, consts=None, enums=None, lets=None, funcs=None, truthy=None):
         self.params = dict(params or {})  # python expr string -> gallina name
         self.consts = dict(consts or {})  # python name (possibly dotted) -> gallina name
         self.enums = dict(enums or {})  # 'Cls.MEMBER' -> int
         self.lets = set(lets or [])
+        self.funcs = dict(funcs or {})  # python callee text -> gallina function name
+        self.truthy = set(truthy or [])  # expressions that are bound methods (always true in a test)
 
     def child(self):
-        e = Env(self.params, self.consts, self.enums, self.lets)
+        e = Env(self.params, self.consts, self.enums, self.lets, self.funcs, self.truthy)
         return e
 
 
@@ -145,6 +147,8 @@ def tr(e, env):
         return env.params[src]
     if src in env.consts:
         return env.consts[src]
+    if src in env.truthy:
+        return "true"
     if isinstance(e, ast.Constant):
         v = e.value
         if isinstance(v, bool):
@@ -245,6 +249,8 @@ def tr(e, env):
         if f in ("min", "max") and len(e.args) == 2:
             x, y = (tr(v, env) for v in e.args)
             return f"(Z.{f} {x} {y})"
+        if f in env.funcs and not e.keywords:
+            return "(" + env.funcs[f] + " " + " ".join(tr(v, env) for v in e.args) + ")"
         raise TieError(f"call {f}")
     if isinstance(e, ast.Tuple):
         return "(" + ", ".join(tr(x, env) for x in e.elts) + ")"
@@ -311,9 +317,10 @@ def tr_block(stmts, env, tail):
             v = tr(s.value, env)
             env2 = env.child()
             for x in t.elts:
-                env2.lets.add(x.id)
-                env2.params.pop(x.id, None)
-            pat = ", ".join("v_" + x.id for x in t.elts)
+                if x.id != "_":
+                    env2.lets.add(x.id)
+                    env2.params.pop(x.id, None)
+            pat = ", ".join(("v_" + x.id) if x.id != "_" else "_" for x in t.elts)
             return f"(let '({pat}) := {v} in {tr_block(rest, env2, tail)})"
         raise TieError("assignment target")
     if isinstance(s, ast.If):
@@ -576,6 +583,15 @@ def gen_text():
     o.item("prettier_upper_test", "bool", prettier_upper_test, params=[("", "depth", "Z")])
     return o
 
+
+
+def _n(t):
+    return t.replace("(", "").replace(")", "").replace(" ", "").replace("\n", "")
+
+
+def same(node, text):
+    """ast.unparse differs slightly between Python versions (parentheses, spaces): compare normalised"""
+    return _n(ast.unparse(node) if not isinstance(node, str) else node) == _n(text)
 
 
 def slice_bounds(sub):
@@ -993,7 +1009,415 @@ def gen_basic():
     return o
 
 
-GENERATORS = [gen_text, gen_tape, gen_basic]
+
+def gen_disk():
+    o = Out("GenDisk")
+    im = lambda: module("moto_lib/fs_disk/image.py")
+    ba = lambda: module("moto_lib/fs_disk/block_allocation.py")
+    ca = lambda: module("moto_lib/fs_disk/catalog.py")
+    co = lambda: module("moto_lib/fs_disk/controller.py")
+    inj = lambda: module("moto_lib/fs_disk/image_worker/content_injector.py")
+    ext = lambda: module("moto_lib/fs_disk/image_worker/content_extractor.py")
+    mgr = lambda: module("moto_lib/fs_disk/image_manager.py")
+
+    # ---- image.py
+    def size_of_sector():
+        fn = find_scope(im(), "TypeOfDiskImage.sizeOfSector")
+        r = fn.body[0].value
+        if not (isinstance(r, ast.IfExp) and ast.unparse(r.test) == "self == TypeOfDiskImage.EMULATOR_FLOPPY_IMAGE"):
+            raise TieError("sizeOfSector shape")
+        return f"(if is_fd then {tr(r.body, Env())} else {tr(r.orelse, Env())})"
+
+    o.item("size_of_sector", "Z", size_of_sector, params=[("", "is_fd", "bool")])
+    o.item("size_of_payload", "Z", lambda: tr(find_scope(im(), "TypeOfDiskImage.sizeOfPayload").body[0].value, Env()))
+    o.item("filler_payload", "Z", lambda: tr(assign_value(im(), "_FILLER_PAYLOAD"), Env()))
+    o.item("filler_sddrive", "Z", lambda: tr(assign_value(im(), "_FILLER_SDDRIVE"), Env()))
+    o.item("sectors_per_track", "Z", lambda: tr(assign_value(find_scope(im(), "DiskTrack"), "SECTORS_PER_TRACK"), Env()))
+    o.item("tracks_per_side", "Z", lambda: tr(assign_value(find_scope(im(), "DiskSide"), "TRACKS_PER_SIDE"), Env()))
+
+    def size_of_side():
+        v = assign_value(find_scope(im(), "DiskImage.__init__"), "SIZE_OF_SIDE")
+        if not (isinstance(v, ast.IfExp) and ast.unparse(v.test) == "typeOfDiskImage == TypeOfDiskImage.EMULATOR_FLOPPY_IMAGE"):
+            raise TieError("SIZE_OF_SIDE shape")
+        return f"(if is_fd then {tr(v.body, Env())} else {tr(v.orelse, Env())})"
+
+    o.item("size_of_side", "Z", size_of_side, params=[("", "is_fd", "bool")])
+
+    def di():
+        return find_scope(im(), "DiskImage.__init__")
+
+    o.item("load_number_of_sides", "Z", lambda: tr(assign_value(di(), "numberOfSides", 2), Env(params={"dataSize": "dataSize", "SIZE_OF_SIDE": "sizeOfSide"})), params=[("", "dataSize", "Z"), ("", "sizeOfSide", "Z")])
+
+    def load_tests():
+        ifs = [i for i in nodes(di(), ast.If)]
+        fd = next(i for i in ifs if ast.unparse(i.test) == "numberOfSides in [0, 3]")
+        sd = next(i for i in ifs if ast.unparse(i.test) == "numberOfSides < 4")
+        integral = next(i for i in ifs if ast.unparse(i.test).startswith("numberOfSides < 4 and"))
+        for i in (fd, sd, integral):
+            if not (isinstance(i.body[0], ast.Raise) and ast.unparse(i.body[0].exc.func) == "ValueError"):
+                raise TieError("load check does not raise ValueError")
+        env = Env(params={"numberOfSides": "n", "dataSize": "dataSize", "SIZE_OF_SIDE": "sizeOfSide"})
+        return tr(fd.test, env), tr(sd.test, env), tr(integral.test, env)
+
+    o.item("load_reject_fd", "bool", lambda: load_tests()[0], params=[("", "n", "Z")])
+    o.item("load_reject_sd", "bool", lambda: load_tests()[1], params=[("", "n", "Z")])
+    o.item("load_reject_partial", "bool", lambda: load_tests()[2], params=[("", "n", "Z"), ("", "dataSize", "Z"), ("", "sizeOfSide", "Z")])
+    o.item("blank_sides_fd", "Z", lambda: tr(assign_value(di(), "numberOfSides", 1), Env(params={"wantedNumberOfSides": "wanted"})), params=[("", "wanted", "Z")])
+
+    def sector_init_tests():
+        fn = find_scope(im(), "DiskSector.__init__")
+        ifs = nodes(fn, ast.If)
+        i = next(x for x in ifs if ast.unparse(x.test) == "sizeOfRawData == 0")
+        j = i.orelse[0]
+        if not isinstance(j, ast.If) or not isinstance(j.orelse[0], ast.Raise):
+            raise TieError("DiskSector.__init__ shape")
+        return tr(j.test, Env(params={"sizeOfRawData": "n", "typeOfDiskImage.sizeOfSector()": "ssz"}))
+
+    o.item("sector_accepts", "bool", sector_init_tests, params=[("", "n", "Z"), ("", "ssz", "Z")])
+
+    def setter():
+        return find_setter(im(), "DiskSector", "dataOfPayload")
+
+    o.item("setter_copy_len", "Z", lambda: tr(assign_value(setter(), "copyLen", 1), Env(params={"copyLen": "len_value", "self._typeOfDiskImage.sizeOfPayload()": "size_of_payload"})), params=[("", "len_value", "Z")])
+
+    def setter_shape():
+        a = setter().body[-1]
+        if not same(a, "self._data[0:copyLen] = value[0:copyLen]"):
+            raise TieError("payload setter does not slice the value: " + ast.unparse(a))
+        return "true"
+
+    o.item("setter_slices_value", "bool", setter_shape)
+
+    # ---- block_allocation.py
+    bs = lambda: enum_members(ba(), "BlockStatus")
+    for m in ("MIN_NEXT", "MAX_NEXT", "LAST_BLOCK", "MIN_LAST", "MAX_LAST", "RESERVED", "FREE"):
+        o.item(f"status_{m}", "Z", (lambda m=m: zlit(bs()[f"BlockStatus.{m}"])))
+    o.item("is_valid_status", "bool", lambda: tr_function(find_scope(ba(), "BlockStatus.isValidStatus"), Env(enums=bs()), [("value", "value", "Z")]), params=[("", "value", "Z")])
+    for g, meth in (("ba_is_free", "isFree"), ("ba_is_reserved", "isReserved"), ("ba_is_last", "isLast"), ("ba_has_next", "hasNext")):
+        o.item(g, "bool", (lambda meth=meth: tr_function(find_scope(ba(), f"BlockAllocation.{meth}"), Env(enums=bs()), [("self._status", "status", "Z")])), params=[("", "status", "Z")])
+    o.item("ba_usage", "Z", lambda: tr_function(find_getter(ba(), "BlockAllocation", "usage"), Env(enums=bs(), funcs={"self.isFree": "ba_is_free status", "self.isReserved": "ba_is_reserved status", "self.hasNext": "ba_has_next status"}, truthy={"self.isLast"}), [("self._status", "status", "Z")]), params=[("", "status", "Z")])
+
+    def last_status():
+        fn = find_scope(ba(), "BlockAllocation.setupAsLastBlock")
+        i = fn.body[0]
+        return tr(i.test, Env(params={"usage": "usage"})), tr(fn.body[1].value, Env(params={"usage": "usage"}))
+
+    o.item("last_usage_rejected", "bool", lambda: last_status()[0], params=[("", "usage", "Z")])
+    o.item("last_status_of", "Z", lambda: last_status()[1], params=[("", "usage", "Z")])
+
+    def link_rejected():
+        fn = find_scope(ba(), "BlockAllocation.linkTo")
+        tests = [i.test for i in nodes(fn, ast.If) if "not in range" in ast.unparse(i.test)]
+        a = tr(tests[0], Env(params={"target.id": "target"}))
+        b = tr(tests[1], Env(params={"target": "target"}))
+        if a != b:
+            raise TieError("linkTo range tests differ")
+        return a
+
+    o.item("link_rejected", "bool", link_rejected, params=[("", "target", "Z")])
+
+    # ---- catalog.py
+    tf = lambda: enum_members(ca(), "TypeOfDiskFile")
+    for m in ("BASIC_PROGRAM", "BASIC_DATA", "MACHINE_LANGUAGE_PROGRAM", "TEXT_FILE"):
+        o.item(f"kind_{m}", "Z", (lambda m=m: zlit(tf()[f"TypeOfDiskFile.{m}"])))
+    o.item("kind_count", "Z", lambda: zlit(len(tf())))
+
+    def kind_fallback():
+        fn = find_scope(ca(), "TypeOfDiskFile.fromByte")
+        h = nth(nodes(fn, ast.ExceptHandler), 0)
+        if ast.unparse(h.type) != "ValueError":
+            raise TieError("fromByte handler")
+        return tr(h.body[0].value.args[0], Env())
+
+    o.item("kind_fallback", "Z", kind_fallback)
+    o.item("data_from_byte_is_ascii", "bool", lambda: tr(find_scope(ca(), "TypeOfData.fromByte").body[0].value.test, Env(params={"value": "value"})), params=[("", "value", "Z")])
+
+    def data_to_byte():
+        r = find_scope(ca(), "TypeOfData.toByte").body[0].value
+        return tr(r, Env(params={"self.value": "v"}))
+
+    o.item("data_to_byte", "Z", data_to_byte, params=[("", "v", "Z")])
+
+    def entry_status():
+        r = find_scope(ca(), "CatalogEntryStatus.fromByte").body[0].value
+        # NEVER_USED if value == 0xFF else DELETED if value == 0 else ALIVE  ->  0 / 2 / 1
+        es = enum_members(ca(), "CatalogEntryStatus")
+        return tr(r, Env(params={"value": "value"}, consts={k: zlit(v) for k, v in es.items()}))
+
+    o.item("entry_status_of", "Z", entry_status, params=[("", "value", "Z")])
+    es_ = lambda: enum_members(ca(), "CatalogEntryStatus")
+    for m in ("NEVER_USED", "ALIVE", "DELETED"):
+        o.item(f"entry_{m}", "Z", (lambda m=m: zlit(es_()[f"CatalogEntryStatus.{m}"])))
+    o.item("padding_char", "Z", lambda: tr(assign_value(ca(), "PADDING_CHAR"), Env()))
+    o.item("invalid_char", "Z", lambda: tr(assign_value(ca(), "INVALID_CHAR"), Env()))
+    o.item("size_of_entry_name", "Z", lambda: tr(assign_value(ca(), "SIZE_OF_ENTRY_NAME"), Env()))
+    o.item("size_of_entry_extension", "Z", lambda: tr(assign_value(ca(), "SIZE_OF_ENTRY_EXTENSION"), Env()))
+
+    def rec_padding():
+        v = assign_value(ca(), "PADDING_OF_RECORD")
+        lc = v.args[0]
+        if not isinstance(lc, ast.ListComp):
+            raise TieError("PADDING_OF_RECORD shape")
+        n = const_int(lc.generators[0].iter.args[0])
+        return f"(repeat {tr(lc.elt, Env())} {n}%nat)"
+
+    o.item("padding_of_record", "list Z", rec_padding)
+
+    def from_bytes_kw():
+        fn = find_scope(ca(), "CatalogEntryRecord.fromBytes")
+        c = fn.body[-1].value
+        return {k.arg: k.value for k in c.keywords}
+
+    def rec_slices():
+        kw = from_bytes_kw()
+        return slice_bounds(kw["name"]) + slice_bounds(kw["extension"])
+
+    for k, nm in enumerate(("rec_name_lo", "rec_name_hi", "rec_ext_lo", "rec_ext_hi")):
+        o.item(nm, "Z", (lambda k=k: zlit(rec_slices()[k])))
+    o.item("rec_kind_index", "Z", lambda: tr(from_bytes_kw()["typeOfFile"].args[0].slice, Env()))
+    o.item("rec_data_index", "Z", lambda: tr(from_bytes_kw()["typeOfData"].args[0].slice, Env()))
+    o.item("rec_first_index", "Z", lambda: tr(from_bytes_kw()["firstBlock"].slice, Env()))
+
+    def rec_last():
+        e = from_bytes_kw()["usageOfLastSector"]
+        subs = nodes(e, ast.Subscript)
+        env = Env(params={ast.unparse(subs[0]): "hi", ast.unparse(subs[1]): "lo"})
+        return tr(e, env), const_int(subs[0].slice), const_int(subs[1].slice)
+
+    o.item("rec_last_of", "Z", lambda: rec_last()[0], params=[("", "hi", "Z"), ("", "lo", "Z")])
+    o.item("rec_last_hi_index", "Z", lambda: zlit(rec_last()[1]))
+    o.item("rec_last_lo_index", "Z", lambda: zlit(rec_last()[2]))
+
+    def rec_init_bytes():
+        fn = find_scope(ca(), "CatalogEntryRecord.__init__")
+        out = {}
+        for a in nodes(fn, ast.Assign):
+            t = a.targets[0]
+            if isinstance(t, ast.Subscript) and ast.unparse(t.value) == "self._data" and not isinstance(t.slice, ast.Slice) and isinstance(t.slice, ast.Constant):
+                out[const_int(t.slice)] = a.value
+        return out
+
+    envr = lambda: Env(params={"typeOfFile.toByte()": "kind", "typeOfData.toByte()": "dflag", "firstBlock": "firstBlock", "usageOfLastSector": "last"})
+    for idx, nm in ((11, "rec_byte11"), (12, "rec_byte12"), (13, "rec_byte13"), (14, "rec_byte14"), (15, "rec_byte15")):
+        o.item(nm, "Z", (lambda idx=idx: tr(rec_init_bytes()[idx], envr())), params=[("", "kind", "Z"), ("", "dflag", "Z"), ("", "firstBlock", "Z"), ("", "last", "Z")])
+
+    def invalid_test():
+        fn = find_scope(ca(), "CatalogEntryRecord.__init__")
+        f = nth(nodes(fn, ast.For), 0)
+        n = const_int(f.iter.args[0])
+        i = f.body[0]
+        return n, tr(i.test, Env(params={"self._data[i]": "b"}))
+
+    o.item("rec_sanitized_count", "Z", lambda: zlit(invalid_test()[0]))
+    o.item("rec_is_invalid_char", "bool", lambda: invalid_test()[1], params=[("", "b", "Z")])
+
+    def size_formula():
+        fn = find_scope(ca(), "CatalogEntryUsage.toDict")
+        d = fn.body[0].value.body  # the dict in the `if len(self._blocks)` branch
+        m = dict(zip([const_str(k) for k in d.keys], d.values))
+        e = m["sizeInBytes"]
+        return tr(e, Env(params={"len(self._blocks)": "nblocks", "self._blocks[-1].usage": "lastUsage", "self._usageOfLastSector": "lastSector"}))
+
+    o.item("size_in_bytes", "Z", size_formula, params=[("", "nblocks", "Z"), ("", "lastUsage", "Z"), ("", "lastSector", "Z")])
+
+    def usage_of_last_block():
+        fn = find_scope(ca(), "CatalogEntryUsage.toUsageDict")
+        d = fn.body[0].value.body
+        m = dict(zip([const_str(k) for k in d.keys], d.values))
+        return tr(m["usageOfLastBlock"], Env(params={"self._blocks[-1].status": "status"}, enums=bs()))
+
+    o.item("usage_of_last_block", "Z", usage_of_last_block, params=[("", "status", "Z")])
+
+    def chain_break_shape():
+        fn = find_scope(ca(), "CatalogEntryUsage.fromBlockAllocationTable")
+        w = nth(nodes(fn, ast.While), 0)
+        if ast.unparse(w.test) != "not _block.isLast()":
+            raise TieError("chain loop test")
+        i = next(x for x in w.body if isinstance(x, ast.If))
+        if not same(i.test, "_block.isFree() or _block.isReserved() or _block in blocks"):
+            raise TieError("chain walk does not stop on a revisited block: " + ast.unparse(i.test))
+        return "true"
+
+    o.item("chain_stops_on_revisit", "bool", chain_break_shape)
+
+    # ---- controller.py
+    o.item("reserved_blocks", "list Z", lambda: tr(assign_value(co(), "RESERVED_BLOCKS"), Env()))
+    o.item("compute_required_slots", "(Z * Z)", lambda: tr_function(find_scope(co(), "_computeRequiredSlots"), Env(), [("sizeOfData", "sizeOfData", "Z"), ("sizeOfSlot", "sizeOfSlot", "Z")]), params=[("", "sizeOfData", "Z"), ("", "sizeOfSlot", "Z")])
+
+    def track_sector():
+        r = find_scope(co(), "_computeTrackSectorOfBlock").body[0].value
+        if not (isinstance(r, ast.Tuple) and ast.unparse(r.elts[0]).startswith("diskSide.tracks[")):
+            raise TieError("_computeTrackSectorOfBlock shape")
+        return tr(r.elts[0].slice, Env(params={"blockId": "blockId"})), tr(r.elts[1], Env(params={"blockId": "blockId"}))
+
+    o.item("track_of_block", "Z", lambda: track_sector()[0], params=[("", "blockId", "Z")])
+    o.item("first_sector_of_block", "Z", lambda: track_sector()[1], params=[("", "blockId", "Z")])
+
+    def bat_get():
+        g = find_getter(co(), "FileSystemController", "_bat")
+        a = g.body[0].value  # self._diskSide.tracks[20].sectors[1].dataOfPayload
+        m = ast.unparse(a)
+        import re as _re
+        mm = _re.fullmatch(r"self\._diskSide\.tracks\[(\d+)\]\.sectors\[(\d+)\]\.dataOfPayload", m)
+        if not mm:
+            raise TieError("_bat getter sector")
+        lc = g.body[1].value
+        if not isinstance(lc, ast.ListComp) or not same(lc.elt, "BlockAllocation(i - 1, batSector[i])"):
+            raise TieError("_bat getter comprehension")
+        r = lc.generators[0].iter
+        return int(mm.group(1)), int(mm.group(2)), const_int(r.args[0]), const_int(r.args[1])
+
+    for k, nm in enumerate(("bat_track", "bat_sector", "bat_first_index", "bat_end_index")):
+        o.item(nm, "Z", (lambda k=k: zlit(bat_get()[k])))
+
+    def bat_set_shape():
+        st = find_setter(co(), "FileSystemController", "_bat")
+        src = [_n(ast.unparse(x)) for x in st.body]
+        want = [_n(x) for x in ["batSector = bytearray(self._diskSide.tracks[20].sectors[1].dataOfPayload)", "batSector[1:len(bat) + 1] = [b.status for b in bat]", "self._diskSide.tracks[20].sectors[1].dataOfPayload = batSector"]]
+        if src != want:
+            raise TieError("_bat setter shape: " + " | ".join(src))
+        return "true"
+
+    o.item("bat_setter_keeps_rest_of_sector", "bool", bat_set_shape)
+
+    def lf():
+        return find_scope(co(), "FileSystemController.listFiles")
+
+    def cat_ranges():
+        fs_ = nodes(lf(), ast.For)
+        a, b = fs_[0].iter.args, fs_[1].iter.args
+        return [const_int(x) for x in a] + [const_int(x) for x in b]
+
+    for k, nm in enumerate(("cat_first_sector", "cat_end_sector", "cat_entry_first", "cat_entry_end", "cat_entry_size")):
+        o.item(nm, "Z", (lambda k=k: zlit(cat_ranges()[k])))
+
+    def wf():
+        return find_scope(co(), "FileSystemController.writeFile")
+
+    def wf_consts():
+        calls = calls_to(wf(), "_computeRequiredSlots")
+        a = const_int(calls[0].args[1])
+        b = const_int(calls[1].args[1])
+        loop = next(f for f in nodes(wf(), ast.For) if ast.unparse(f.target) == "currentSliceIndex")
+        step = const_int(loop.iter.args[2])
+        if not same(loop.iter, "range(0, max(dataLen, 1), 255)"):
+            raise TieError("slice loop range: " + ast.unparse(loop.iter))
+        i = next(x for x in nodes(wf(), ast.If) if ast.unparse(x.test) == "dataLen == 0")
+        if not same(i.body[0], "requiredSectorLength, usageOfLastSector = 1, 0"):
+            raise TieError("empty file rule: " + ast.unparse(i.body[0]))
+        last = next(x for x in nodes(wf(), ast.If) if ast.unparse(x.test).startswith("currentSector ==") and "currentBlock = currentBlock + 1" in ast.unparse(x))
+        seven = const_int(last.test.comparators[0])
+        mod = assign_value(wf(), "currentSector", 1)
+        if not same(mod, "(currentSector + 1) % 8"):
+            raise TieError("sector counter")
+        sl = next(n for n in nodes(wf(), ast.Subscript) if ast.unparse(n.value) == "content")
+        if not same(sl, "content[currentSliceIndex:currentSliceIndex + 255]"):
+            raise TieError("content slice")
+        lastrule = next(x for x in nodes(wf(), ast.If) if ast.unparse(x.test) == "currentBlock >= lastBlockIndex")
+        return a, b, step, seven
+
+    for k, nm in enumerate(("payload_per_sector", "sectors_per_block", "slice_step", "last_sector_of_block")):
+        o.item(nm, "Z", (lambda k=k: zlit(wf_consts()[k])))
+
+    def rf_consts():
+        fn = find_scope(co(), "FileSystemController.readFile")
+        t = next(a for a in nodes(fn, ast.Assign) if same(a.targets[0], "sMax, lastSize"))
+        if not same(t.value, "(lastBlockUsage, lastSectorSize) if i == lastI else (8, 255)"):
+            raise TieError("readFile per-block sizes")
+        return 8, 255
+
+    o.item("read_full_sectors", "Z", lambda: zlit(rf_consts()[0]))
+    o.item("read_full_payload", "Z", lambda: zlit(rf_consts()[1]))
+
+    def init_shape():
+        fn = find_scope(co(), "FileSystemController.initFileSystem")
+        src = [_n(ast.unparse(x)) for x in fn.body if not isinstance(x, ast.Expr)]
+        if _n("self._diskSide.tracks[20].sectors[1].dataOfPayload = bytes(256)") not in src:
+            raise TieError("initFileSystem does not zero the allocation-table sector")
+        e = assign_value(fn, "empty_sector")
+        lc = e.args[0]
+        return tr(lc.elt, Env())
+
+    o.item("init_catalog_filler", "Z", init_shape)
+
+    # ---- injector
+    def ic():
+        return find_scope(inj(), "DiskImageContentInjector")
+
+    def processors():
+        d = assign_value(find_scope(inj(), "DiskImageContentInjector.__init__"), "self._processors")
+        dflt = ast.unparse(assign_value(find_scope(inj(), "DiskImageContentInjector.__init__"), "self._defaultProcessors"))
+        tfm, tdm = tf(), enum_members(ca(), "TypeOfData")
+
+        def of_method(mname):
+            m = find_scope(inj(), "DiskImageContentInjector." + mname.replace("self.", ""))
+            c = nth(calls_to(m, "writeFile"), 0)
+            ext_arg, kind, data = c.args[2], c.args[3], c.args[4]
+            forced = None if ast.unparse(ext_arg) == "fileExtension" else const_str(ext_arg)
+            return forced, tfm[ast.unparse(kind)], tdm[ast.unparse(data)]
+
+        rows = []
+        for k, v in zip(d.keys, d.values):
+            forced, kind, data = of_method(ast.unparse(v))
+            rows.append((const_str(k), forced, kind, data))
+        forced, kind, data = of_method(dflt)
+        if forced is not None:
+            raise TieError("default processor forces an extension")
+        return rows, (kind, data)
+
+    def proc_table():
+        rows, _ = processors()
+        return "[" + "; ".join(f"({zlist(str_points(k))}, ({'Some ' + zlist(str_points(f)) if f is not None else 'None'}, {kind}, {data}))" for k, f, kind, data in rows) + "]"
+
+    o.item("inj_processors", "list (list Z * (option (list Z) * Z * Z))", proc_table)
+    o.item("inj_default_processor", "(Z * Z)", lambda: "(%d, %d)" % processors()[1])
+
+    def perform():
+        return find_scope(inj(), "DiskImageContentInjector.perform")
+
+    o.item("eos_marker", "list Z", lambda: zlist(str_points(const_str(next(i for i in nodes(perform(), ast.If) if ast.unparse(i.test).startswith("fileName ==")).test.comparators[0]))))
+
+    def limits():
+        a = next(i for i in nodes(perform(), ast.If) if ast.unparse(i.test).startswith("len(fileName) >"))
+        b = next(i for i in nodes(perform(), ast.If) if ast.unparse(i.test).startswith("len(fileExtension) >"))
+        return const_int(a.test.comparators[0]), const_int(b.test.comparators[0])
+
+    o.item("inj_name_max", "Z", lambda: zlit(limits()[0]))
+    o.item("inj_ext_max", "Z", lambda: zlit(limits()[1]))
+
+    def reported_blocks():
+        fn = find_scope(inj(), "DiskImageContentInjector.writeFile")
+        body = None
+        for t in nodes(fn, ast.Try):
+            body = t.body
+        start = next(k for k, s_ in enumerate(body) if ast.unparse(s_).startswith("sizeInBytes ="))
+        end = next(k for k, s_ in enumerate(body) if ast.unparse(s_).startswith("listener.onEndOfFile"))
+        env = Env(params={"len(fileData)": "size"}, funcs={"_computeRequiredSlots": "compute_required_slots"}, lets=set())
+        return tr_block(body[start:end], env, lambda e: "v_sizeInBlocks")
+
+    o.item("inj_reported_blocks", "Z", reported_blocks, params=[("", "size", "Z")])
+    o.item("side_count", "Z", lambda: tr(find_scope(inj(), "DiskImageContentInjector._hasController").body[-1].value.comparators[0], Env()))
+
+    def ex_shape():
+        fn = find_scope(ext(), "DiskImageContentExtractor.perform")
+        mk = nth(calls_to(fn, "makedirs"), 0)
+        if not any(k.arg == "exist_ok" and ast.unparse(k.value) == "True" for k in mk.keywords):
+            raise TieError("makedirs without exist_ok=True")
+        c = nth(calls_to(fn, "replace"), 0)
+        a, b = c.args
+        frm = [47] if ast.unparse(a) == "os.sep" else str_points(const_str(a))
+        to = str_points(const_str(b))
+        if len(frm) != 1 or len(to) != 1:
+            raise TieError("replace arguments")
+        js = [j for j in nodes(fn, ast.JoinedStr) if "side" in ast.unparse(j)]
+        return frm[0], to[0]
+
+    o.item("dex_sep_from", "Z", lambda: zlit(ex_shape()[0]))
+    o.item("dex_sep_to", "Z", lambda: zlit(ex_shape()[1]))
+    return o
+
+
+GENERATORS = [gen_text, gen_tape, gen_basic, gen_disk]
 
 
 def main():
